@@ -126,7 +126,7 @@ func TestC20_Behaviour(t *testing.T) {
 			}
 		}
 		compare("at start")
-		foreign, filteredClone, refiltered, monitors := false, false, false, false
+		foreign, filteredClone, refiltered, monitors, emptyInit := false, false, false, false, false
 		keys := [][2]string{{"a", "p"}, {"a", "q"}, {"b", "p"}, {"b", "q"}}
 		t.Repeat(map[string]func(*rapid.T){
 			"put": func(t *rapid.T) {
@@ -195,6 +195,27 @@ func TestC20_Behaviour(t *testing.T) {
 				refiltered = true
 				compare("after refilter")
 			},
+			"monitorOnEmptyView": func(t *rapid.T) {
+				// a filtered clone refiltered to the library's own accept-nothing filter has an empty cache
+				// (no barrier marker either): a monitor attached now is initialised with an empty listing,
+				// typed exactly as untyped
+				var idx []int
+				for i, n := range wt.nodes {
+					if !n.closed && (n.kind == "fclone" || n.kind == "dclone") && n.depth() < 3 {
+						idx = append(idx, i)
+					}
+				}
+				if len(idx) == 0 || len(wt.nodes) >= 10 {
+					t.Skip("no filtered clone")
+				}
+				ni := rapid.SampledFrom(idx).Draw(t, "node")
+				both(func(w *world) { w.refilterRawAll(w.nodes[ni]) })
+				refiltered = true
+				compare("after refilter to filter.All()")
+				both(func(w *world) { w.attachMonitor(w.nodes[ni]) })
+				monitors, emptyInit = true, true
+				compare("after attaching a monitor to an empty view")
+			},
 			"close": func(t *rapid.T) {
 				var idx []int
 				for i, n := range wt.nodes {
@@ -222,6 +243,6 @@ func TestC20_Behaviour(t *testing.T) {
 		hist := append([]string(nil), wt.hist...)
 		statCase("C20", hashString(pkg+strings.Join(hist, ";")), filteredClone && refiltered && foreign, func() interface{} {
 			return map[string]interface{}{"mode": "behaviour", "type": pkg, "typed_lists": typedLists, "history": hist}
-		}, "behaviour", "behaviour_"+pkg, fmt.Sprintf("monitors=%v", monitors), fmt.Sprintf("foreign_objects=%v", foreign))
+		}, "behaviour", "behaviour_"+pkg, fmt.Sprintf("monitors=%v", monitors), fmt.Sprintf("foreign_objects=%v", foreign), fmt.Sprintf("monitor_on_empty_view=%v", emptyInit))
 	})
 }
